@@ -261,7 +261,9 @@ def run(c) -> CaseResult:
     # ---- track_scales / compile at the end change nothing
     if c["end"]:
         rb = run_once_(mods[len(chain)], inputs)
-        tol_end = None if c["end"] == "track_scales" else 1e-5
+        # compile (inductor) may fuse and re-associate float32 reductions: the input gradient of a layer norm is a difference of such
+        # sums (seen: 2e-5 relative, 1 of 2060 thorough cases) - float32-level agreement, as in C20
+        tol_end = None if c["end"] == "track_scales" else 1e-4
         if c["end"] == "track_scales":
             # tracking can change gradients in the last ulps (accumulation order, contiguous copies: C18's known finding); with a
             # lossy quantiser in the chain one ulp can flip a rounding decision, so the comparison is made without one only
@@ -317,7 +319,7 @@ def run_repeat(c) -> CaseResult:
 
 CHECK = Check(
     id="C17",
-    parts=[Part("chains", run, strategy=cases, budget={"quick": 160, "thorough": 2000}),
+    parts=[Part("chains", run, strategy=cases, budget={"quick": 160, "thorough": 4000}),
            Part("repeat", run_repeat, strategy=repeat_cases, budget={"quick": 6, "thorough": 60})],
     rule=("Hypothesis histories: a module (DSL program over torch ops, or a block built from unit-scaled layers) x a chain using unit_scale at most "
           "once and at most one format simulation (simulate_fp8, lossless E8M23, E5M2-nearest, stochastic E4M3 with srbits=3; random source pinned) "
